@@ -182,6 +182,7 @@ def loader_bounds(ctx, quick=None):
 
     # ---- 4. verdicts ------------------------------------------------------------------------------------
     crashes, mismatches, confirmed = 0, [], {"section-wrap": 0, "strlen-wrap": 0}
+    listed = {"crash": 0, "trace": 0}        # at most 6 VIOLATION lines of a kind, the rest is counted
     by_id = {c["id"]: c for c in cases}
     extra = {c["id"]: c for c in wit + cexcases}
     samples = []
@@ -206,12 +207,16 @@ def loader_bounds(ctx, quick=None):
                     samples.append(dict(id=cid, outcome=x["outcome"], signal=x["signal"], report=x["report"][:120], finding=f["id"],
                                         bytes=(c or extra[cid])["bytes"][:80]))
             else:
-                rp = ctx.save_replay("loader-%s.nvm" % cid, src=x["path"])
-                ctx.violation("C13 loader: nvm_deserialize crashed on a well-checksummed file that is not in a known class: " + what, rp)
+                listed["crash"] += 1
+                if listed["crash"] <= 6:
+                    rp = ctx.save_replay("loader-%s.nvm" % cid, src=x["path"])
+                    ctx.violation("C13 loader: nvm_deserialize crashed on a well-checksummed file that is not in a known class: " + what, rp)
         else:
             if x["outcome"] not in allowed:
                 mismatches.append(dict(id=cid, outcome=x["outcome"], model=sorted(allowed)))
             if hooked and cid in unexplained:
+                listed["trace"] += 1
+            if hooked and cid in unexplained and listed["trace"] <= 6:
                 rp = ctx.save_replay("loader-trace-%s.ndjson" % cid, content="".join(split_trace(trace)[0][cid]))
                 ctx.violation("C13 loader: stage events of load %s are explained neither by the repaired nor by the as-written "
                               "specification: %s" % (cid, json.dumps(unexplained[cid])[:600]), rp)
@@ -229,5 +234,5 @@ def loader_bounds(ctx, quick=None):
                loader_model_predicts_oob=sum(1 for c in cases if _classify(c)),
                loader_samples=samples or [dict(id=c["id"], bytes=c["bytes"][:80], model=c["asWritten"], real=res[c["id"]]["outcome"])
                                           for c in cases[:3]],
-               loader_hook_present=hooked)
+               loader_hook_present=hooked, loader_unexplained=dict(listed))
     return cov
